@@ -333,6 +333,8 @@ async fn episode(p: &EpParams) -> EpReport {
                         }
                         None => {
                             if end_vt > limit && !deleted_before && t_deleted.is_none() {
+                                // seen from C01: a message no consumer has accepted is not being redelivered
+                                rep.viol("C01", "C01:push-message-not-redelivered", format!("message {}: attempt {} was refused ({}) and it was never POSTed (or made available) again", tg, k, r.behaviour.name()));
                                 rep.viol("C14", format!("C14:not-reposted:after={}", r.behaviour.name()), format!("message {}: attempt {} failed ({}) at {} ms and no further POST arrived until {} ms", tg, k, r.behaviour.name(), f / MS, end_vt / MS));
                             } else if t_deleted.is_none() {
                                 rep.inconclusive("failure too close to the end of the episode");
